@@ -252,6 +252,29 @@ type InstrMeter struct {
 	MeterId uint32
 }
 
+func (instr *InstrMeter) Len() (n uint16) {
+	return 8
+}
+
+func (instr *InstrMeter) MarshalBinary() (data []byte, err error) {
+	data, err = instr.InstrHeader.MarshalBinary()
+
+	b := make([]byte, 4)
+	binary.BigEndian.PutUint32(b, instr.MeterId)
+
+	data = append(data, b...)
+	return
+}
+
+func (instr *InstrMeter) UnmarshalBinary(data []byte) error {
+	if len(data) < int(instr.Len()) {
+		return errors.New("The []byte is too short to unmarshal an InstrMeter message.")
+	}
+	instr.InstrHeader.UnmarshalBinary(data[:4])
+	instr.MeterId = binary.BigEndian.Uint32(data[4:])
+	return nil
+}
+
 func (instr *InstrMeter) AddAction(act Action, prepend bool) error {
 	return errors.New("Not supported on this instrction")
 }
